@@ -44,33 +44,69 @@ public:
 	using super::swap;
 	using super::emplace_back;
 
+	// The items are moved one by one to their sorted position instead of appending and then sorting the
+	// whole list: std::list::sort moves all nodes out of the list while it works, so a thread reading
+	// empty() without the lock (EventQueue::emptyQueue) would see a non-empty queue as empty, and a throwing
+	// comparison would leave the list modified.
+
 	void splice(const_iterator pos, OrderedQueueList & other) {
-		super::splice(pos, other);
-		doSort();
+		if(pos == this->cbegin() && ! this->empty()) {
+			// Items are put back to the front, they go before the items that compare equal.
+			while(! other.empty()) {
+				const_iterator it = other.cend();
+				--it;
+				super::splice(doFindLowerBound(*it), other, it);
+			}
+		}
+		else {
+			while(! other.empty()) {
+				const_iterator it = other.cbegin();
+				super::splice(doFindUpperBound(*it), other, it);
+			}
+		}
 	}
 
-	void splice(const_iterator pos, OrderedQueueList & other, const_iterator it) {
-		super::splice(pos, other, it);
-		doSort();
+	void splice(const_iterator /*pos*/, OrderedQueueList & other, const_iterator it) {
+		super::splice(doFindUpperBound(*it), other, it);
 	}
 
 private:
-	void doSort() {
-		auto compare = Compare();
-		this->sort([compare](const T & a, const T & b) {
-			// a and b may be empty if they are recycled to free list.
-			if(a.empty()) {
-				if(b.empty()) {
-					return false;
-				}
-				return true;
+	// The position after all items that are not greater than item.
+	const_iterator doFindUpperBound(const T & item) const {
+		const_iterator it = this->cend();
+		while(it != this->cbegin()) {
+			const_iterator previous = it;
+			--previous;
+			if(! doCompare(item, *previous)) {
+				break;
 			}
-			else if(b.empty()) {
+			it = previous;
+		}
+		return it;
+	}
+
+	// The position before all items that are not less than item.
+	const_iterator doFindLowerBound(const T & item) const {
+		const_iterator it = this->cbegin();
+		while(it != this->cend() && doCompare(*it, item)) {
+			++it;
+		}
+		return it;
+	}
+
+	static bool doCompare(const T & a, const T & b) {
+		// a and b may be empty if they are recycled to free list.
+		if(a.empty()) {
+			if(b.empty()) {
 				return false;
 			}
+			return true;
+		}
+		else if(b.empty()) {
+			return false;
+		}
 
-			return compare(a.get(), b.get());
-		});
+		return Compare()(a.get(), b.get());
 	}
 };
 
